@@ -60,6 +60,19 @@ for k, op in enumerate(prog["ops"]):
         del o
         gc.collect()
         emit(k=k, op=op, names=names, still_there=[s for s in names if os.path.exists(s)])
+    elif name == "unlink_behind":
+        # something else (user code, an external /dev/shm cleaner) unlinks the names behind loky's back
+        if op[1] not in objs or objs[op[1]][0] == "executor":
+            continue
+        import _multiprocessing
+        gone = []
+        for sname in objs[op[1]][2]:
+            try:
+                _multiprocessing.sem_unlink("/" + os.path.basename(sname)[len("sem."):])
+                gone.append(sname)
+            except FileNotFoundError:
+                pass
+        emit(k=k, op=op, unlinked=gone)
     elif name == "send":
         if op[1] not in objs or objs[op[1]][0] == "executor":
             continue
